@@ -2,6 +2,9 @@ package metadata
 
 import (
 	"fmt"
+	"go/ast"
+	"reflect"
+	"strings"
 
 	"github.com/gopher-fleece/gleece/v2/core/annotations"
 	"github.com/gopher-fleece/gleece/v2/definitions"
@@ -14,13 +17,22 @@ type StructMeta struct {
 }
 
 func (s StructMeta) Reduce(ctx ReductionContext) (definitions.StructMetadata, error) {
-	reducedFields := make([]definitions.FieldMetadata, len(s.Fields))
-	for idx, field := range s.Fields {
+	reducedFields := make([]definitions.FieldMetadata, 0, len(s.Fields))
+	for _, field := range s.Fields {
 		reduced, err := field.Reduce(ctx)
 		if err != nil {
 			return definitions.StructMetadata{}, fmt.Errorf("failed to reduce field '%s' - %v", field.Name, err)
 		}
-		reducedFields[idx] = reduced
+
+		// encoding/json never (de)serializes unexported fields nor fields tagged `json:"-"` - they are not part of the model
+		if !reduced.IsEmbedded {
+			jsonName, _, _ := strings.Cut(reflect.StructTag(reduced.Tag).Get("json"), ",")
+			if !ast.IsExported(reduced.Name) || (jsonName == "-" && !strings.Contains(reduced.Tag, `json:"-,`)) {
+				continue
+			}
+		}
+
+		reducedFields = append(reducedFields, reduced)
 	}
 
 	return definitions.StructMetadata{
